@@ -89,6 +89,9 @@ type DB struct {
 	closeC chan struct{}
 	closed uint32
 	closer io.Closer
+
+	// Set once the DB has been switched to read-only mode.
+	readOnly uint32
 }
 
 func openDB(s *session) (*DB, error) {
